@@ -2,6 +2,7 @@
     This file only pins statements and reports their assumptions. *)
 From QV Require Import Common.Prelude Cache.Wide Cache.WideProof Cache.SetLog Cache.SetCache
   Cache.SetProof Cache.SetCacheProof Cache.FillRace.
+From QV Require Import Cache.FillGuard Cache.FillGuardProof Cache.FillGuardSet Cache.FillGuardSetProof.
 Open Scope N_scope.
 
 (** Single-value and multi-type map.  [run init ops = Some _]: every operation of the
@@ -50,6 +51,45 @@ Theorem C09_set_ryw : forall thr ops s outs,
   same_sets outs (sspec [] ops) = true.
 Proof. exact set_ryw. Qed.
 
+(** The miss paths as repaired in /repo (649e55c + cea103e, 597cc55): a per-key-group counter
+    of writes, remembered by a miss before it looks for the entry and compared again, under the
+    entry lock, before it installs what it read.  The concurrent model splits a miss into
+    start / miss / read / install and a counted write into its entry operation and its
+    [fetch_add] ([GBump]); every other step of writers, the commit thread, the after-commit
+    thread and the eviction policy may come in between, in any enabled order, with any number
+    of loading threads and any grouping [grp] of keys into counters.  [BumpAfter] is the code as
+    it is now; counting the write BEFORE the entry operation (the first repair, 649e55c) is
+    refuted - that refutation, found while proving, led to cea103e. *)
+Theorem C09_wide_guard_ryw : forall (grp : key -> N) ops s outs,
+  grun grp BumpAfter ginit ops = Some (s, outs) -> ordered [] (flat_map gseq_of ops) = true ->
+  outs = spec [] (flat_map gseq_of ops).
+Proof. intros grp ops s outs. apply guard_ryw. discriminate. Qed.
+Theorem C09_wide_guard_cache_coherent : forall (grp : key -> N) ops s outs,
+  grun grp BumpAfter ginit ops = Some (s, outs) -> ordered [] (flat_map gseq_of ops) = true ->
+  forall k v p, alookup k (cache (gbase s)) = Some (v, p) ->
+                v = last (spec [] (flat_map gseq_of ops ++ [Get k])) None.
+Proof. intros grp ops s outs. apply guard_cache_coherent. discriminate. Qed.
+Theorem C09_wide_guard_before_refuted : forall grp : key -> N,
+  exists ops s outs,
+    grun grp BumpBefore ginit ops = Some (s, outs) /\ ordered [] (flat_map gseq_of ops) = true /\
+    outs = [None] /\ spec [] (flat_map gseq_of ops) = [Some 1].
+Proof. exact guard_before_refuted_any_grouping. Qed.
+
+(** key->set map: [apply_op] split into stage (log append) / count / apply-to-cached-set, the miss
+    of [get_entry] into start (count) / snapshot / miss / scan / install-if-count-unchanged.
+    Every uninterrupted [get] yields the reference set; without the guard it does not. *)
+Theorem C09_set_guard_ryw : forall thr (grp : key -> N) ops s outs,
+  gsrun thr grp true false gsinit ops = Some (s, outs) -> sordered [] (flat_map qseq_of ops) = true ->
+  same_sets outs (sspec [] (flat_map qseq_of ops)) = true.
+Proof. exact set_guard_ryw. Qed.
+Theorem C09_set_fill_unguarded_refuted :
+  exists thr grp ops s outs,
+    gsrun thr grp false false gsinit ops = Some (s, outs) /\ sordered [] (flat_map qseq_of ops) = true /\
+    same_sets outs (sspec [] (flat_map qseq_of ops)) = false.
+Proof. exact set_fill_unguarded_refuted. Qed.
+
+Check retry_history_ok.        (* a refused and retried fill, right answers: Cache/FillGuardProof.v *)
+Check set_retry_history_ok.    (* the same for sets: Cache/FillGuardSetProof.v *)
 Check sample_history_ok.   (* the hypotheses of C09_wide_ryw are satisfiable: Cache/WideProof.v *)
 Check set_sample_ok.       (* ... and those of C09_set_ryw, with a spilling set: Cache/SetCacheProof.v *)
 
@@ -60,3 +100,8 @@ Print Assumptions C09_set_ryw_refuted_spill.
 Print Assumptions C09_set_ryw_refuted_overlay.
 Print Assumptions C09_set_ryw_refuted_overlay_no_background.
 Print Assumptions C09_set_ryw.
+Print Assumptions C09_wide_guard_ryw.
+Print Assumptions C09_wide_guard_cache_coherent.
+Print Assumptions C09_wide_guard_before_refuted.
+Print Assumptions C09_set_guard_ryw.
+Print Assumptions C09_set_fill_unguarded_refuted.
